@@ -8,7 +8,7 @@ VC = ("contract-based deductive verification: verification conditions generated 
 PROPS = {
     "C20": {
         "standins": ["malformed"],
-        "units": [x690_c20.units, wire_community.units_rx, wire_community.units_c19, wire_v3.units_rx, wire_v3.units_emit], "level": "other", "design_ref": "7.20",
+        "units": [x690_c20.units, wire_community.units_rx, wire_community.units_c19, wire_v3.units_rx, wire_v3.units_emit, udp.units], "level": "other", "design_ref": "7.20",
         "technique": VC + "x690 get_value_slice / decode / Sequence.decode_raw verified FROM THE SITE-PACKAGES SOURCE on an arbitrary byte "
                      "array (progress contracts, loop variant); static obligations over the receive path's ASTs (acyclic call graph, no "
                      "loop-index-sized bignum arithmetic); frame condition of the receive path (an exception leaves the client usable)",
@@ -67,7 +67,7 @@ PROPS = {
     },
     "C05": {
         "standins": ["wire-emit"],
-        "units": [wire_community.units_c05, wire_v3.units_emit, x690_bytes.units_for(("C05",))], "level": "other", "design_ref": "7.5",
+        "units": [wire_community.units_c05, wire_v3.units_emit, x690_bytes.units_for(("C05",)), tables.units_walkcall], "level": "other", "design_ref": "7.5",
         "technique": VC + "the real chain operation -> _send -> plug-in loaders -> message processing -> security model -> "
                      "PDU framing executed symbolically; the bytes handed to the sender are compared with an RFC-transcribed "
                      "term over a free BER term algebra",
@@ -128,7 +128,7 @@ PROPS = {
     },
     "C18": {
         "standins": ["config"],
-        "units": [config.units, seam.units, wire_community.units_c05], "level": "proof", "design_ref": "7.18",
+        "units": [config.units, seam.units, wire_community.units_c05, wire_v3.units_emit], "level": "proof", "design_ref": "7.18",
         "technique": VC + "configure, reconfigure (an @contextmanager function executed with an ARBITRARY block at its yield: "
                      "the block may reconfigure permanently and may raise), the transport handler closure and _send; "
                      "object identity of config/mpm is exact (heap objects are concrete per path)",
